@@ -363,7 +363,7 @@ func c09(o Opts) error {
 	if err := os.WriteFile(o.Out+"/cases.v", []byte(coq.String()), 0644); err != nil {
 		return err
 	}
-	res.Rule = "lake: one evaluation = one (pool, vector state, query, parallelism) run compared with the same query on the pool without vectors; non-trivial = the plan was vectorised and the grouped/summed field is not uniformly a plain string/int64 column in a single object.  programs: one evaluation = one (program, input) pair run by compiler.VectorCompile and by the sequential runtime; non-trivial = both produced at least one non-error value"
+	res.Rule = "lake: one evaluation = one (pool, vector state, query, parallelism) run compared with the same query on the pool without vectors; non-trivial = the plan was vectorised and the query returns at least one row.  programs: one evaluation = one (program, input) pair run by compiler.VectorCompile and by the sequential runtime; non-trivial = both produced at least one non-error value"
 	res.Write(o.Out)
 	return nil
 }
